@@ -13,7 +13,7 @@ ver = open(os.path.join(src, "verify.log")).read() if os.path.exists(os.path.joi
 head = subprocess.run("git -C /repo rev-parse --short HEAD", shell=True, stdout=subprocess.PIPE, text=True).stdout.strip()
 base = subprocess.run("git -C %s rev-parse --short HEAD" % wt, shell=True, stdout=subprocess.PIPE, text=True).stdout.strip()
 meta = dict(id="%s-m%s" % (prop, dstn), property=prop,
-            origin="independent sub-agent, third round (told only the titles of the earlier changes to avoid repeating them)",
+            origin="independent sub-agent, %s round (told only the titles of the earlier changes to avoid repeating them)" % os.environ.get("ROUND", "third"),
             base_commit_of_author=base, patch_applies_to=head, needs_to_manifest="see notes.md",
             confirmed=dict(suite_with_mutation="non-Live gtest cases all passed, aresfuzz/aresfuzzname exit 0 (re-run by me in the scratch worktree)",
                            demo_without_mutation="exit 0", demo_with_mutation="exit 1", log=ver[-1500:]),
